@@ -148,6 +148,7 @@ const (
 	kCount    // an Int used as a repeat count
 	kIndex    // an Int used as a list index
 	kShortStr // a short string (repeat operand)
+	kDivisor  // an Int used as a divisor: zero and -1 are frequent
 )
 
 type fnSpec struct {
@@ -159,7 +160,7 @@ type fnSpec struct {
 
 func typeOfKind(k kind) octosql.Type {
 	switch k {
-	case kInt, kCount, kIndex:
+	case kInt, kCount, kIndex, kDivisor:
 		return octosql.Int
 	case kFloat:
 		return octosql.Float
@@ -200,9 +201,9 @@ var specs = []*fnSpec{
 	{ctor: "FMulIntDur", name: "*", args: []kind{kInt, kDur}},
 	{ctor: "FMulStrInt", name: "*", args: []kind{kShortStr, kCount}},
 	{ctor: "FMulIntStr", name: "*", args: []kind{kCount, kShortStr}},
-	{ctor: "FDivInt", name: "/", args: []kind{kInt, kInt}},
+	{ctor: "FDivInt", name: "/", args: []kind{kInt, kDivisor}},
 	{ctor: "FDivFloat", name: "/", args: []kind{kFloat, kFloat}},
-	{ctor: "FDivDurInt", name: "/", args: []kind{kDur, kInt}},
+	{ctor: "FDivDurInt", name: "/", args: []kind{kDur, kDivisor}},
 	{ctor: "FDivDurDur", name: "/", args: []kind{kDur, kDur}},
 	{ctor: "FAbsInt", name: "abs", args: []kind{kInt}},
 	{ctor: "FAbsFloat", name: "abs", args: []kind{kFloat}},
@@ -431,6 +432,14 @@ func genElems(r *lib.Rng) []octosql.Value {
 func genArg(r *lib.Rng, k kind, sofar []octosql.Value) octosql.Value {
 	switch k {
 	case kInt:
+		return octosql.NewInt(genInt(r))
+	case kDivisor:
+		switch r.Intn(6) {
+		case 0:
+			return octosql.NewInt(0)
+		case 1:
+			return octosql.NewInt([]int64{-1, 1, 2, -2, 3, -3, 10, 1000000000}[r.Intn(8)])
+		}
 		return octosql.NewInt(genInt(r))
 	case kFloat:
 		return octosql.NewFloat(genFloat(r))
@@ -770,15 +779,24 @@ func main() {
 		"execution.NewCoalesce + NewObjectLayoutFixer with counting argument expressions; non-trivial = a call whose arguments are not all zero/empty and whose descriptor does " +
 		"real work (identity conversions excluded), or a COALESCE with a NULL before the first non-NULL argument or a struct/list/tuple result; distinct by full case text"
 
-	nFn := f.Cases(900, 9000)
+	var heavy []*fnSpec
+	for _, s := range specs {
+		switch s.ctor {
+		case "FAddFloat", "FSubFloat", "FMulFloat", "FDivFloat", "FSqrt", "FCeil", "FFloor", "FIntStr", "FIntFloat", "FFloatInt", "FTimeFromUnixFloat",
+			"FAddTimeDur", "FSubTimeDur", "FDivInt", "FDivDurDur", "FMulInt", "FIndex", "FMulStrInt":
+			heavy = append(heavy, s)
+		}
+	}
+	nFn := f.Cases(1300, 13000)
 	nCo := f.Cases(250, 2500)
 
 	// 1. descriptor calls
 	for i := 0; i < nFn; i++ {
 		r := rng.Fork()
 		s := specs[i%len(specs)]
-		if i >= 4*len(specs) {
-			s = specs[r.Intn(len(specs))]
+		if i >= 6*len(specs) {
+			// the rest goes to the descriptors with the largest input spaces
+			s = heavy[r.Intn(len(heavy))]
 		}
 		args := make([]octosql.Value, len(s.args))
 		for j, k := range s.args {
